@@ -81,10 +81,10 @@
      by the edits in front of it) — C11_handles_step, _history, _history_field.  The pre-fix
      code refutes it: C11_in_place_refuted, C11_in_place_relation_refuted. *)
 From V.model Require Import Base RelLex RelParse RelAcc RelGrammar RelEdit RelEditSpec RelEditTree RelLive RelHandles.
-From V.model Require RelLiveAll.
+From V.model Require RelLiveAll RelHandlesAll.
 From V.proofs Require Import BaseP RelEditP RelEditStP RelEditHistP RelEditReparseP RelEditFullP RelEditRefuteP.
 From V.proofs Require Import RelEditTreeP RelEditReplaceP RelEditParsedP RelLiveP RelLiveStepP RelLiveWfP RelLiveNormP RelLiveHistP RelLiveParsedP RelHandlesP RelEditBuildP.
-From V.proofs Require RelLiveAllStepP RelLiveAllHistP.
+From V.proofs Require RelLiveAllStepP RelLiveAllHistP RelHandlesAllP.
 
 (* the whole property is RelEditSpec.C11_full, a statement about a variant of the code; it is proved
    for the code as it is in /repo: C11_full_theorem (section 1e) *)
@@ -683,6 +683,80 @@ Check C11_all_machine_step : forall o T T' st,
   exists st', run_ops fixed (compile o) st = Ok st' /\ holds st' T'.
 Print Assumptions C11_all_machine_step.
 
+(* handles obtained at ANY earlier time, on liberal layouts and with operands built by Relation::new or RelationBuilder (model/RelHandlesAll.v, the mirror of RelHandles.v: the content is a list of relrec records, the list model is astep): one operation through whatever registers it names *)
+Theorem C11_all_handles_step : forall b sv st a o a' tr,
+  RelHandlesAllP.Rel b sv st a -> RelHandlesAll.h_op o a = Some (a', tr) -> forallb RelLiveAll.operands_ok tr = true ->
+  exists out st', run_op fixed o st = Ok (out, st') /\ RelHandlesAllP.Rel b sv st' a'.
+Proof. exact RelHandlesAllP.handles_step. Qed.
+Check C11_all_handles_step : forall b sv st a o a' tr,
+  RelHandlesAllP.Rel b sv st a -> RelHandlesAll.h_op o a = Some (a', tr) -> forallb RelLiveAll.operands_ok tr = true ->
+  exists out st', run_op fixed o st = Ok (out, st') /\ RelHandlesAllP.Rel b sv st' a'.
+Print Assumptions C11_all_handles_step.
+
+(* programs *)
+Theorem C11_all_handles_history : forall b sv ops st a a' tr,
+  RelHandlesAllP.Rel b sv st a -> RelHandlesAll.h_ops ops a = Some (a', tr) -> forallb RelLiveAll.operands_ok tr = true ->
+  exists st', run_ops fixed ops st = Ok st' /\ RelHandlesAllP.Rel b sv st' a'.
+Proof. exact RelHandlesAllP.handles_history. Qed.
+Check C11_all_handles_history : forall b sv ops st a a' tr,
+  RelHandlesAllP.Rel b sv st a -> RelHandlesAll.h_ops ops a = Some (a', tr) -> forallb RelLiveAll.operands_ok tr = true ->
+  exists st', run_ops fixed ops st = Ok st' /\ RelHandlesAllP.Rel b sv st' a'.
+Print Assumptions C11_all_handles_history.
+
+(* from ANY text read without error (accessors not panicking), ANY in-scope program of the eighteen operations through ANY registers: no panic; every register denotes what the abstract reading says (Rel); the root's structure is the list model's history folded over the structure of the text, substitution variables unchanged; the printed text is read again without error to that same structure *)
+Theorem C11_all_handles_history_text : forall b s t0 f0 st ops a' tr,
+  parse_relaxed s b = Ok (t0, 0) -> structure t0 = Ok f0 -> holds st t0 ->
+  RelHandlesAll.h_ops ops (RelHandlesAll.mk_hstate f0 (RelHandlesAllP.h_of st)) = Some (a', tr) ->
+  forallb RelLiveAll.operands_ok tr = true ->
+  exists st' l',
+    run_ops fixed ops st = Ok st' /\
+    RelHandlesAllP.Rel b (substvar_texts t0) st' a' /\
+    RelHandlesAll.h_f a' = fold_left astep tr f0 /\
+    root_tree st' = Ok (RelLiveAll.ltree l') /\ root_text st' = Ok (text (RelLiveAll.ltree l')) /\
+    structure (RelLiveAll.ltree l') = Ok (fold_left astep tr f0) /\
+    substvar_texts (RelLiveAll.ltree l') = substvar_texts t0 /\
+    exists t'', parse_relaxed (text (RelLiveAll.ltree l')) b = Ok (t'', 0) /\ text t'' = text (RelLiveAll.ltree l') /\
+                structure t'' = Ok (fold_left astep tr f0) /\ substvar_texts t'' = substvar_texts t0.
+Proof. exact RelHandlesAllP.handles_history_text. Qed.
+Check C11_all_handles_history_text : forall b s t0 f0 st ops a' tr,
+  parse_relaxed s b = Ok (t0, 0) -> structure t0 = Ok f0 -> holds st t0 ->
+  RelHandlesAll.h_ops ops (RelHandlesAll.mk_hstate f0 (RelHandlesAllP.h_of st)) = Some (a', tr) ->
+  forallb RelLiveAll.operands_ok tr = true ->
+  exists st' l',
+    run_ops fixed ops st = Ok st' /\
+    RelHandlesAllP.Rel b (substvar_texts t0) st' a' /\
+    RelHandlesAll.h_f a' = fold_left astep tr f0 /\
+    root_tree st' = Ok (RelLiveAll.ltree l') /\ root_text st' = Ok (text (RelLiveAll.ltree l')) /\
+    structure (RelLiveAll.ltree l') = Ok (fold_left astep tr f0) /\
+    substvar_texts (RelLiveAll.ltree l') = substvar_texts t0 /\
+    exists t'', parse_relaxed (text (RelLiveAll.ltree l')) b = Ok (t'', 0) /\ text t'' = text (RelLiveAll.ltree l') /\
+                structure t'' = Ok (fold_left astep tr f0) /\ substvar_texts t'' = substvar_texts t0.
+Print Assumptions C11_all_handles_history_text.
+
+(* an Entry handle that denotes entry i shows the i-th entry of the field as it is now *)
+Theorem C11_all_handles_entry : forall b sv st a k i, RelHandlesAllP.Rel b sv st a -> RelHandlesAll.h_reg a (ereg k) = Some (RelHandlesAll.ELive i) ->
+  exists l e, root_tree st = Ok (RelLiveAll.ltree l) /\ RelLiveAll.lcontent l = (RelHandlesAll.h_f a, sv) /\
+              nth_error (RelLiveAllStepP.lentries l) i = Some e /\
+              reg_text (ereg k) st = Ok (Some (text (RelLiveAll.lentry_tree e)), st).
+Proof. exact RelHandlesAllP.Rel_entry_handle. Qed.
+Check C11_all_handles_entry : forall b sv st a k i, RelHandlesAllP.Rel b sv st a -> RelHandlesAll.h_reg a (ereg k) = Some (RelHandlesAll.ELive i) ->
+  exists l e, root_tree st = Ok (RelLiveAll.ltree l) /\ RelLiveAll.lcontent l = (RelHandlesAll.h_f a, sv) /\
+              nth_error (RelLiveAllStepP.lentries l) i = Some e /\
+              reg_text (ereg k) st = Ok (Some (text (RelLiveAll.lentry_tree e)), st).
+Print Assumptions C11_all_handles_entry.
+
+(* and a Relation handle the j-th alternative of the i-th entry *)
+Theorem C11_all_handles_relation : forall b sv st a m i j, RelHandlesAllP.Rel b sv st a -> RelHandlesAll.h_reg a (rreg m) = Some (RelHandlesAll.RLive i j) ->
+  exists l e r, root_tree st = Ok (RelLiveAll.ltree l) /\ RelLiveAll.lcontent l = (RelHandlesAll.h_f a, sv) /\
+                nth_error (RelLiveAllStepP.lentries l) i = Some e /\ RelLiveAll.nth_rel e j = Some r /\
+                reg_text (rreg m) st = Ok (Some (text (RelLiveAll.lrel_tree r)), st).
+Proof. exact RelHandlesAllP.Rel_relation_handle. Qed.
+Check C11_all_handles_relation : forall b sv st a m i j, RelHandlesAllP.Rel b sv st a -> RelHandlesAll.h_reg a (rreg m) = Some (RelHandlesAll.RLive i j) ->
+  exists l e r, root_tree st = Ok (RelLiveAll.ltree l) /\ RelLiveAll.lcontent l = (RelHandlesAll.h_f a, sv) /\
+                nth_error (RelLiveAllStepP.lentries l) i = Some e /\ RelLiveAll.nth_rel e j = Some r /\
+                reg_text (rreg m) st = Ok (Some (text (RelLiveAll.lrel_tree r)), st).
+Print Assumptions C11_all_handles_relation.
+
 (* C11, IN FULL (RelEditSpec.C11_full, for the code as it is in /repo): from any text that parses without error and whose accessors do not panic, every in-range history with well-formed operands runs without panic, the root holds exactly the list model's field, the substitution variables keep their text, and the printed text parses again without error to that same field *)
 Theorem C11_full_theorem : C11_full fixed.
 Proof. exact RelLiveAllHistP.C11_full_fixed. Qed.
@@ -1019,4 +1093,26 @@ Example C11_handles_ex :
   forallb operands_ok tr = true /\
   run_text fixed (IStrict [97; 44; 32; 98; 32; 124; 32; 99; 44; 32; 100]%N) ops = Ok [120; 44; 32; 99; 58; 97; 110; 121; 32; 40; 62; 61; 32; 49; 41]%N /\
   run_text without_in_place (IStrict [97; 44; 32; 98; 32; 124; 32; 99; 44; 32; 100]%N) ops = Ok [120; 44; 32; 98; 32; 124; 32; 99; 44; 32; 100]%N.
+Proof. vm_compute. repeat split; reflexivity. Qed.
+
+(* Non-vacuity of C11_full_theorem: a text no Policy-shaped field has — CR as white space, no space
+   before the version, a version "5::", an architecture list "[!! x !]", profile groups "<a !b ! c>"
+   and "<>", a substitution variable "${::a:}", an empty entry and a trailing comma —
+     "\r a:b(= 5::)[!! x !]<a !b ! c><>|z , ${::a:},,"
+   is read without error, its accessors do not panic; a history with builder-built operands
+   (qualifier, architectures, profiles) is in range; the machine prints
+     "\r a:b(>= 2)[!! x !]<a !b ! c><> <r> | n:any [amd64] <p !q> , ${::a:},, w:native <!s>"
+   which is read again without error to exactly the list model's field. *)
+Example C11_full_ex :
+  let sfield s := match parse_relaxed s true with Ok (t, 0) => structure t | _ => Err 1%N end in
+  let s0 := [13; 32; 97; 58; 98; 40; 61; 32; 53; 58; 58; 41; 91; 33; 33; 32; 120; 32; 33; 93; 60; 97; 32; 33; 98; 32; 33; 32; 99; 62; 60; 62; 124; 122; 32; 44; 32; 36; 123; 58; 58; 97; 58; 125; 44; 44]%N in
+  let f0 := [[mk_relrec [97]%N (Some [98]%N) (Some (VEq, [53; 58; 58]%N)) (Some [[33; 120]%N]) [[PEnabled [97]%N; PDisabled [98]%N; PDisabled []%N; PEnabled [99]%N]; []]; mk_relrec [122]%N None None None []]] in
+  let ops := [ASetVersion 0 0 (Some (VGe, [50]%N)); AEPush 0 (mk_relrec [110]%N (Some [97; 110; 121]%N) None (Some [[97; 109; 100; 54; 52]%N]) [[PEnabled [112]%N; PDisabled [113]%N]]);
+              ASetArchs 0 1 [[105; 51; 56; 54]%N]; AAddProfile 0 0 [PEnabled [114]%N];
+              APush [mk_relrec [119]%N None None None [[PDisabled [115]%N]]]; ARemoveRelation 0 1; ASetArchqual 1 0 [110; 97; 116; 105; 118; 101]%N] in
+  let s1 := [13; 32; 97; 58; 98; 40; 62; 61; 32; 50; 41; 91; 33; 33; 32; 120; 32; 33; 93; 60; 97; 32; 33; 98; 32; 33; 32; 99; 62; 60; 62; 32; 60; 114; 62; 32; 124; 32; 110; 58; 97; 110; 121; 32; 91; 97; 109; 100; 54; 52; 93; 32; 60; 112; 32; 33; 113; 62; 32; 44; 32; 36; 123; 58; 58; 97; 58; 125; 44; 44; 32; 119; 58; 110; 97; 116; 105; 118; 101; 32; 60; 33; 115; 62]%N in
+  sfield s0 = Ok f0 /\ hist_in_range f0 ops = true /\ forallb wf_operands ops = true /\
+  run_text fixed (IRelaxed s0) (compile_all ops) = Ok s1 /\
+  fold_left astep ops f0 = [[mk_relrec [97]%N (Some [98]%N) (Some (VGe, [50]%N)) (Some [[33; 120]%N]) [[PEnabled [97]%N; PDisabled [98]%N; PDisabled []%N; PEnabled [99]%N]; []; [PEnabled [114]%N]]; mk_relrec [110]%N (Some [97; 110; 121]%N) None (Some [[97; 109; 100; 54; 52]%N]) [[PEnabled [112]%N; PDisabled [113]%N]]]; [mk_relrec [119]%N (Some [110; 97; 116; 105; 118; 101]%N) None None [[PDisabled [115]%N]]]] /\
+  sfield s1 = Ok (fold_left astep ops f0).
 Proof. vm_compute. repeat split; reflexivity. Qed.
